@@ -228,7 +228,7 @@ static carquet_status_t add_column_internal(
     }
 
     /* Compute definition level based on repetition */
-    col->max_def_level = (repetition == CARQUET_REPETITION_OPTIONAL) ? 1 : 0;
+    col->max_def_level = (repetition == CARQUET_REPETITION_REQUIRED) ? 0 : 1;
     col->max_rep_level = (repetition == CARQUET_REPETITION_REPEATED) ? 1 : 0;
 
     writer->column_values_written[writer->num_columns] = 0;
